@@ -284,6 +284,7 @@ type Sym struct {
 	Expand  bool
 	ord     map[*ssa.Function]map[ssa.Value]string
 	stored  map[*ssa.Function]map[string]bool
+	loops   map[*ssa.Function]map[*ssa.BasicBlock]map[*ssa.BasicBlock]bool
 	loadOrd map[*ssa.Function]map[*ssa.UnOp]int
 	keyMemo map[symKey]string
 	busy    map[symKey]bool
@@ -1052,7 +1053,14 @@ func (s *Sym) PathCond(from, to *ssa.BasicBlock, ctx *symCtx) *pcF {
 			if !from.Dominates(p) {
 				continue
 			}
-			out = pcOrF(out, pcAndF(pc(p), s.edgeCond(p, b, ctx)))
+			ec := s.edgeCond(p, b, ctx)
+			// leaving a loop that lies wholly inside the region by its head: the
+			// loop is passed through (it is assumed to end), its own "more
+			// elements?" test says nothing about whether b is reached
+			if l, ok := s.loopAt(p); ok && !l[b] && from != p && !l[from] {
+				ec = pcT
+			}
+			out = pcOrF(out, pcAndF(pc(p), ec))
 		}
 		memo[b] = out
 		return out
@@ -1061,6 +1069,23 @@ func (s *Sym) PathCond(from, to *ssa.BasicBlock, ctx *symCtx) *pcF {
 		return pcZ
 	}
 	return pc(to)
+}
+
+// loopAt: the body of the natural loop whose header is b.
+func (s *Sym) loopAt(b *ssa.BasicBlock) (map[*ssa.BasicBlock]bool, bool) {
+	fn := b.Parent()
+	if s.loops == nil {
+		s.loops = map[*ssa.Function]map[*ssa.BasicBlock]map[*ssa.BasicBlock]bool{}
+	}
+	if s.loops[fn] == nil {
+		m := map[*ssa.BasicBlock]map[*ssa.BasicBlock]bool{}
+		for _, l := range ssaLoops(fn) {
+			m[l.Header] = l.body()
+		}
+		s.loops[fn] = m
+	}
+	body, ok := s.loops[fn][b]
+	return body, ok
 }
 
 // loopOf returns the innermost natural loop containing b, if any.
